@@ -27,6 +27,10 @@ Fl(n, d) == [k |-> "float", n |-> n, d |-> d]          \* n / 2^d
 St(s) == [k |-> "str", v |-> s]
 Bo(b) == [k |-> "bool", v |-> b]
 Nil == [k |-> "nil"]
+IBig(text) == [k |-> "raw", text |-> text, num |-> "int"]   \* a decimal int literal beyond TLC's 32-bit integers (<= 2^63 - 1)
+FInfLit(text) == [k |-> "raw", text |-> text, num |-> "inf"] \* a float literal beyond the largest double
+FBig(n, e) == [k |-> "fbig", n |-> n, e |-> e]               \* the float literal n * 2^e, e >= 1
+Paren(e) == [k |-> "paren", e |-> e]                         \* redundant parentheses (only where they could matter)
 V(b) == [k |-> "var", b |-> b]
 Std(name) == [k |-> "std", name |-> name]
 Self == [k |-> "self"]
